@@ -138,6 +138,7 @@ theorem compS_TB : ∀ (s : Stmt) (ctx : Ctx) (pc cur : Nat),
   | pass => intro ctx pc cur _ _; simp [compS, TB_nil]
   | ev => intro ctx pc cur _ _; simp [compS, callProbe, TB_cons, TB_nil, tgtsOf, opOf]
   | ret => intro ctx pc cur _ _; simp [compS, callProbe, TB_cons, TB_nil, tgtsOf, opOf]
+  | yieldS => intro ctx pc cur _ _; simp [compS, callProbe, TB_cons, TB_nil, tgtsOf, opOf]
   | raise => intro ctx pc cur _ _; simp [compS, TB_cons, TB_nil, tgtsOf, opOf]
   | reraise => intro ctx pc cur _ _; simp [compS, TB_cons, TB_nil, tgtsOf, opOf]
   | raiseX ln fm =>
